@@ -169,8 +169,11 @@ func (sc *Scanner) scanNumber(ch int, buf *bytes.Buffer) error {
 				return sc.Error(buf.String(), "illegal hexadecimal number")
 			}
 			return sc.endOfNumber(buf)
-		} else if sc.Peek() != '.' && isDecimal(sc.Peek()) {
-			ch = sc.Next()
+		} else {
+			// leading zeros do not make a numeral octal: drop all of them
+			for ch == '0' && isDecimal(sc.Peek()) {
+				ch = sc.Next()
+			}
 		}
 	}
 	sc.scanDecimal(ch, buf)
